@@ -36,7 +36,7 @@ STATE = {"nested": 0, "evals": 0}
 
 
 def plan(tier, seed):
-    n = 1600 if tier == "quick" else 16000
+    n = 6000 if tier == "quick" else 60000
     return {"n_cases": n, "floors": {"evaluations": n // 2}}
 
 
